@@ -39,6 +39,9 @@ struct RInfo {
     start: u64,
     kind: RKind,
     tag: u8,
+    /// the pieces of address space that were mapped for this region (net effect of the step
+    /// that created it)
+    extent: Vec<(usize, usize)>,
 }
 
 enum Owner {
@@ -111,6 +114,8 @@ struct World {
     dead: Vec<u32>,
     trace: Vec<String>,
     files: Vec<String>,
+    /// net effect of every mmap/munmap observed so far
+    lib: interpose::Pieces,
 }
 
 fn maps_has(name: &str) -> bool {
@@ -119,7 +124,7 @@ fn maps_has(name: &str) -> bool {
 
 impl World {
     fn new() -> World {
-        World { regs: HashMap::new(), raws: HashMap::new(), owners: vec![], next_id: 1, next_start: 0x1000, dead: vec![], trace: vec![], files: vec![] }
+        World { regs: HashMap::new(), raws: HashMap::new(), owners: vec![], next_id: 1, next_start: 0x1000, dead: vec![], trace: vec![], files: vec![], lib: interpose::Pieces::default() }
     }
 
     fn live_ids(&self) -> Vec<u32> {
@@ -198,107 +203,81 @@ impl World {
         for i in 0..len {
             unsafe { region.as_ptr().add(i).write_volatile(tag) };
         }
-        self.regs.insert(id, RInfo { addr, len, start, kind: rk, tag });
+        self.regs.insert(id, RInfo { addr, len, start, kind: rk, tag, extent: vec![] });
         let g = GuestRegionMmap::new(region, GuestAddress(start)).unwrap();
         Some((g, id))
     }
 
     /// After a step: compare the interposer log with the owner bookkeeping.
+    /// After a step: compare the NET effect of the mmap/munmap calls the step issued with the
+    /// owner bookkeeping. (Stated on pieces of address space, not on calls: an implementation may
+    /// over-allocate and trim, or release a mapping in several calls.)
     fn settle(&mut self, log: &[Ev], before_live: &[u32], created: &[u32], step: &str) -> bool {
         let mut ok = true;
         let now = self.live_ids();
         let died: Vec<u32> = before_live.iter().chain(created.iter()).filter(|i| !now.contains(i)).cloned().collect();
         if interpose::available() {
-            // creation: each created owned region has exactly one successful mmap with its address
+            self.lib.apply(log);
+            // what this step mapped and left mapped
+            let mut step_p = interpose::Pieces::default();
+            step_p.apply(log);
+            let mut unassigned = step_p.clone();
+            // creation: the region's bytes lie inside pieces mapped by this step
             for id in created {
-                let ri = &self.regs[id];
-                let n = log.iter().filter(|e| matches!(e, Ev::Mmap { ret, errno: 0, .. } if *ret == ri.addr)).count();
-                let want = if ri.kind == RKind::Raw { 1 } else { 1 }; // raw: the harness's own mmap
-                if n != want {
-                    v("create/mapping-count", jobj! {"step" => step, "region" => *id, "mmaps_at_addr" => n});
+                let (addr, len) = (self.regs[id].addr, self.regs[id].len);
+                if !step_p.covers(addr, len.max(1)) {
+                    v("create/region-not-backed-by-a-mapping-made-for-it", jobj! {"step" => step, "region" => *id, "addr" => addr, "len" => len, "pieces" => J::dbg(&step_p.v)});
                     ok = false;
                 }
-                // what is mapped is what is later unmapped: the mapping's length is the region's
-                if ri.kind != RKind::Raw {
-                    for e in log {
-                        if let Ev::Mmap { ret, len, errno: 0, .. } = e {
-                            if *ret == ri.addr && *len != ri.len {
-                                v("create/mapped-length-differs-from-region-length", jobj! {"step" => step, "region" => *id, "mapped" => *len, "region_len" => ri.len});
-                                ok = false;
-                            }
-                        }
-                    }
+                let ext: Vec<(usize, usize)> = step_p.v.iter().filter(|(a, b)| *b > addr && *a < addr + len.max(1)).cloned().collect();
+                for (a, b) in &ext {
+                    unassigned.remove(*a, b - a);
                 }
+                out::count("mapped_bytes_beyond_region_pages", (ext.iter().map(|(a, b)| b - a).sum::<usize>() as i128 - (len.max(1).div_ceil(4096) * 4096) as i128).max(0));
+                self.regs.get_mut(id).unwrap().extent = ext;
             }
-            let mut unmaps: Vec<(usize, usize)> = log.iter().filter_map(|e| if let Ev::Munmap { addr, len, ret: 0, .. } = e { Some((*addr, *len)) } else { None }).collect();
-            // a mapping made during this step that no created region owns (failed or abandoned
-            // construction) must have been released again, with its exact extent, within the step
-            for e in log {
-                if let Ev::Mmap { ret, len, errno: 0, .. } = e {
-                    if created.iter().any(|id| self.regs[id].addr == *ret) {
-                        continue;
-                    }
-                    match unmaps.iter().position(|(a, _)| a == ret) {
-                        Some(p) => {
-                            let (_, l) = unmaps.remove(p);
-                            if l != *len {
-                                v("ownerless-mapping-released-with-wrong-length", jobj! {"step" => step, "addr" => *ret, "mapped_len" => *len, "munmap_len" => l});
-                                ok = false;
-                            }
-                            out::count("ownerless_mappings_released", 1);
-                        }
-                        None => {
-                            v("mapping-without-owner-left-behind", jobj! {"step" => step, "addr" => *ret, "len" => *len, "trace" => self.trace.clone()});
-                            ok = false;
-                            // release it so that later steps are judged on their own
-                            unsafe { libc::munmap(*ret as *mut _, *len) };
-                        }
-                    }
-                }
+            // whatever else the step mapped and did not release has no owner
+            for (a, b) in &unassigned.v {
+                v("mapping-without-owner-left-behind", jobj! {"step" => step, "addr" => *a, "len" => b - a, "trace" => self.trace.clone()});
+                ok = false;
+                // release it so that later steps are judged on their own
+                unsafe { libc::munmap(*a as *mut _, b - a) };
+                self.lib.remove(*a, b - a);
             }
+            if log.iter().any(|e| matches!(e, Ev::Mmap { errno: 0, .. })) && created.is_empty() && unassigned.v.is_empty() {
+                out::count("ownerless_mappings_released", 1);
+            }
+            // death: everything that was mapped for the region is gone; external mappings stay
             for id in &died {
                 let ri = self.regs[id].clone();
                 if ri.kind == RKind::Raw {
-                    // never unmapped by the library
-                    if let Some(p) = unmaps.iter().position(|(a, _)| *a >= ri.addr && *a < ri.addr + ri.len.max(1)) {
-                        v("externally-provided-mapping-unmapped-by-library", jobj! {"step" => step, "region" => *id, "munmap" => J::dbg(&unmaps[p])});
+                    if ri.extent.iter().any(|(a, b)| !self.lib.covers(*a, b - a)) {
+                        v("externally-provided-mapping-unmapped-by-library", jobj! {"step" => step, "region" => *id, "log" => J::dbg(&log)});
                         ok = false;
-                        unmaps.remove(p);
                     }
                     continue;
                 }
-                match unmaps.iter().position(|(a, _)| *a == ri.addr) {
-                    Some(p) => {
-                        let (_, l) = unmaps.remove(p);
-                        if l != ri.len {
-                            v("munmap-with-wrong-length", jobj! {"step" => step, "region" => *id, "len" => l, "mapped_len" => ri.len});
-                            ok = false;
-                        }
-                        if unmaps.iter().any(|(a, _)| *a == ri.addr) {
-                            v("mapping-unmapped-twice", jobj! {"step" => step, "region" => *id});
-                            ok = false;
-                        }
+                let left: Vec<(usize, usize)> = ri.extent.iter().flat_map(|(a, b)| self.lib.covered(*a, b - a)).collect();
+                if !left.is_empty() {
+                    v("mapping-leaked-after-last-owner-dropped", jobj! {"step" => step, "region" => *id, "kind" => J::dbg(&ri.kind), "region_len" => ri.len, "still_mapped" => J::A(left.iter().map(|(a, b)| J::S(format!("+{:#x}..+{:#x}", a - ri.addr.min(*a), b - ri.addr.min(*a)))).collect()), "trace" => self.trace.clone()});
+                    ok = false;
+                    for (a, b) in &left {
+                        unsafe { libc::munmap(*a as *mut _, b - a) };
+                        self.lib.remove(*a, b - a);
                     }
-                    None => {
-                        v("mapping-leaked-after-last-owner-dropped", jobj! {"step" => step, "region" => *id, "kind" => J::dbg(&ri.kind), "trace" => self.trace.clone()});
-                        ok = false;
-                    }
+                }
+                let hits = log.iter().filter(|e| matches!(e, Ev::Munmap { addr, ret: 0, .. } if *addr == ri.addr)).count();
+                if hits > 1 {
+                    v("mapping-unmapped-twice", jobj! {"step" => step, "region" => *id});
+                    ok = false;
                 }
             }
-            // any remaining munmap touching a region that still has owners is a premature unmap
-            for (a, l) in &unmaps {
-                for id in &now {
-                    let ri = &self.regs[id];
-                    if *a < ri.addr + ri.len && ri.addr < *a + (*l).max(1) {
-                        v("mapping-unmapped-while-still-owned", jobj! {"step" => step, "region" => *id, "munmap" => J::dbg(&(a, l)), "trace" => self.trace.clone()});
-                        ok = false;
-                    }
-                }
-                if !now.iter().any(|id| {
-                    let ri = &self.regs[id];
-                    *a < ri.addr + ri.len && ri.addr < *a + (*l).max(1)
-                }) {
-                    out::note("C12/munmap-of-untracked-range", jobj! {"addr" => *a, "len" => *l});
+            // regions that still have owners keep everything that was mapped for them
+            for id in &now {
+                let ri = &self.regs[id];
+                if ri.extent.iter().any(|(a, b)| !self.lib.covers(*a, b - a)) {
+                    v("mapping-unmapped-while-still-owned", jobj! {"step" => step, "region" => *id, "kind" => J::dbg(&ri.kind), "log" => J::dbg(&log), "trace" => self.trace.clone()});
+                    ok = false;
                 }
             }
         }
@@ -334,6 +313,7 @@ impl World {
                 // still usable? (a library munmap would make this fault)
                 unsafe { (a as *mut u8).write_volatile(1) };
                 unsafe { libc::munmap(a as *mut _, l) };
+                self.lib.remove(a, l);
             }
             self.dead.push(*id);
         }
@@ -547,6 +527,52 @@ fn finish(w: &mut World) {
     if !w.live_ids().is_empty() {
         v("harness/live-ids-after-finish", J::Null);
     }
+}
+
+/// Large anonymous regions (2 MiB and more - where an implementation may align for huge pages,
+/// over-allocate and trim) whose request sizes step through every 4 KiB residue, so that the
+/// placements the kernel hands out sweep every offset within a 2 MiB frame, aligned ones included.
+/// All are kept alive until the end (a dropped region's spot would simply be reused).
+#[cfg(not(feature = "xen"))]
+fn large_region_sweep() {
+    let mut w = World::new();
+    let n = 530usize;
+    let mut ok = true;
+    for i in 0..n {
+        if !ok {
+            break;
+        }
+        let len = (2usize << 20) + 4096 * (i % 512) + if i % 7 == 0 { 1 } else { 0 };
+        ok = w.step("create large region -> map", |w| {
+            let id = w.next_id;
+            w.next_id += 1;
+            let start = w.next_start;
+            w.next_start += len as u64 + 0x1000;
+            let tag = (id as u8) | 0x80;
+            let region = if i % 3 == 0 {
+                vm_memory::mmap::MmapRegionBuilder::<()>::new(len).with_mmap_prot(libc::PROT_READ | libc::PROT_WRITE).with_mmap_flags(libc::MAP_ANONYMOUS | libc::MAP_PRIVATE | libc::MAP_NORESERVE).build().unwrap()
+            } else {
+                MmapRegion::<()>::new(len).unwrap()
+            };
+            let addr = region.as_ptr() as usize;
+            // only the first and the last byte are touched (what probe() reads)
+            unsafe {
+                region.as_ptr().write_volatile(tag);
+                region.as_ptr().add(len - 1).write_volatile(tag);
+            }
+            w.regs.insert(id, RInfo { addr, len, start, kind: RKind::Anon, tag, extent: vec![] });
+            let g = GuestRegionMmap::new(region, GuestAddress(start)).unwrap();
+            let o = build_map(w, vec![(g, id)]);
+            w.owners.push(o);
+            out::key(&format!("large|placement-mod-2MiB={}", if addr % (2 << 20) == 0 { "aligned" } else { "other" }), true);
+            if addr % (2 << 20) == 0 {
+                out::count("large_regions_at_2MiB_aligned_placement", 1);
+            }
+            vec![id]
+        });
+    }
+    out::count("large_regions_created", w.owners.len() as i128);
+    finish(&mut w);
 }
 
 /// Requests that must be refused. Whatever they mapped on the way has no owner afterwards and
@@ -817,6 +843,12 @@ pub fn run(args: &Args) {
         });
         if let Err(p) = r0 {
             v(&format!("panic/failing-constructions/{}", panic_sig(&p)), J::s(p));
+        }
+    }
+    #[cfg(not(feature = "xen"))]
+    if args.shard().0 == 0 && !cfg!(miri) && !args.flag("nolarge") {
+        if let Err(p) = guarded(large_region_sweep) {
+            v(&format!("panic/large-region-sweep/{}", panic_sig(&p)), J::s(p));
         }
     }
     for case in args.cases(300) {
